@@ -9,14 +9,17 @@ THEOREMS = ['Otel.C14.' + t for t in (
     'isValidKey_iff', 'isValidValue_iff', 'set_spec', 'set_invalid_default', 'set_places_first', 'set_key_unique',
     'set_keeps_others', 'set_full_new_refused', 'set_full_existing_updates', 'delete_exact', 'delete_invalid_default',
     'get_set', 'get_set_other', 'get_delete', 'wf_set', 'wf_delete', 'fromHeader_spec', 'wf_fromHeader',
-    'overlong_header_empty', 'invalid_member_header_empty', 'fromHeader_toHeader')] + ['Otel.rxMatch_iff'] + ['Otel.Tab.' + t for t in (
+    'overlong_header_empty', 'invalid_member_header_empty', 'fromHeader_toHeader', 'members_eq_filter')] + ['Otel.rxMatch_iff'] + ['Otel.Tab.' + t for t in (
     'tab_tsKey1', 'tab_tsValue1', 'tab_tsKey2_cross', 'tab_tsValue2_cross', 'tab_trimDrops', 'tab_trimShort', 'tab_trim3Short', 'tab_kvTokSep', 'tab_kvTokShort')]
 HARNESSES = [Harness('f_c09', ['harness/f_c09.cc'])]
 H = 'f_c09'
 RULE = ('op sequences (from/set/del/get/hdr/vk/vv) over a growing family of states, small key pool so keys repeat, '
         'boundary lengths 255/256/257 and the 241@14 tenant form, lists driven to 31/32/33 members; header strings with '
         'OWS, empty members, missing "=", 33+ members, non-ASCII; every byte in first/later key and value position. '
-        'After each op the harness re-prints every earlier state (original never modified). non-trivial = at least one '
+        'After each op the harness re-prints every earlier state (original never modified). Further entry points: Empty(), '
+        'GetAllEntries with a declining callback (emp / ents), the tokenizer called directly with explicit options incl. '
+        'ignore_empty_members=false, other separators and reset() (tok), KeyValueProperties(capacity) filled past its '
+        'capacity, GetValue, Entry copies / SetValue and the constructor from an iterable (kvp). non-trivial = at least one '
         'op produced a non-empty state; distinct = distinct case line')
 TRUSTED = ['std::regex (its result is compared with the translated predicate on every vk/vv op)']
 ASSUMPTIONS = ['a header whose comma-separated segment count exceeds 32 only through empty segments may be discarded or parsed (oracle accepts both; the model mirrors the code)']
@@ -66,6 +69,26 @@ def spec_from(h):
     if nseg > 32:
         return [[], parsed]
     return [parsed]
+
+
+def spec_tok(h, msep, kvsep, ignore_empty):
+    """the tokenizer by its documentation: members separated by msep (a separator that ends the string starts no further
+    member), each trimmed; empty members skipped or reported as a valid pair of empty strings; key / value split at the first
+    kvsep, a member without one is invalid"""
+    segs = h.split(msep) if h else []
+    if len(segs) > 1 and segs[-1] == b'':
+        segs = segs[:-1]
+    toks = []
+    for m in (x.strip(WS) for x in segs):
+        if not m:
+            if not ignore_empty:
+                toks.append('-:-')
+        elif kvsep not in m:
+            toks.append('!')
+        else:
+            k, v = m.split(kvsep, 1)
+            toks.append(f'{hx(k)}:{hx(v)}')
+    return f'n={len(segs)} t=[' + ','.join(toks) + ']'
 
 
 def spec_set(es, k, v):
@@ -154,6 +177,27 @@ def oracle(case, out):
         elif t[0] == 'vv':
             if o != ('1' if vv(unhx(t[1])) else '0'):
                 return ('value-grammar', f'{op} -> {o}')
+        elif t[0] == 'emp':
+            e = '1' if not states[int(t[1])] else '0'
+            if o != e:
+                return ('empty-iff-no-members', f'{op} -> {o} want {e}')
+        elif t[0] == 'ents':
+            es, n = states[int(t[1])], int(t[2])
+            e = f'r={1 if n == 0 or len(es) < n else 0} ' + show(es if n == 0 else es[:n])
+            if o != e:
+                return ('enumeration-ordered-and-stops-when-declined', f'{op} -> {o} want {e}')
+        elif t[0] == 'tok':
+            if 'RESET-DIFF' in o:
+                return ('tokenizer-reset-restarts', f'{op} -> {o}')
+            e = spec_tok(unhx(t[4]), unhx(t[1]), unhx(t[2]), t[3] == '1')
+            if o != e:
+                return ('tokenizer-members-trimmed-split-at-first-separator', f'{op} -> {o} want {e}')
+        elif t[0] == 'kvp':
+            cap = int(t[1])
+            kv = [(unhx(t[j]), unhx(t[j + 1])) for j in range(2, len(t), 2)]
+            e = f's={min(cap, len(kv))} ' + show(kv[:cap])
+            if o != e:
+                return ('fixed-capacity-owned-ordered-entries', f'{op} -> {o} want {e}')
         else:
             return ('bad-case', op)
         # well-formedness of every state produced
@@ -178,6 +222,13 @@ def corpus():
     full = b','.join(b'k%d=v%d' % (i, i) for i in range(32))
     out.append(Case(f'ts from {hx(full)} ; set 1 6b35 78 ; set 1 6e6577 78 ; hdr 2 ; hdr 3', H, ('corpus', 'D06-full-list'), 'corpus'))
     out.append(Case('ts from 613d312c613d322c623d33 ; set 1 62 39 ; set 1 61 39 ; del 1 61', H, ('corpus', 'dup-in-header'), 'corpus'))
+    # further entry points (coverage audit)
+    out.append(Case('ts emp 0 ; from 613d312c623d32 ; emp 1 ; ents 1 0 ; ents 1 1 ; ents 1 2 ; ents 1 3 ; ents 0 1 ; del 1 61 ; del 2 62 ; emp 3',
+                    H, ('corpus', 'emp-ents'), 'corpus'))
+    for h in (b'', b',', b',,', b' ', b' , ', b'a=1,', b',a=1', b'a=1,, b ,c=', b'a', b'=', b'a==b', b'a=1,b=2,c=3'):
+        out.append(Case(f'ts tok 2c 3d 1 {hx(h)} ; tok 2c 3d 0 {hx(h)}', H, ('corpus', 'tok'), 'corpus'))
+    out.append(Case('ts tok 3b 3a 0 613a313b3b623a ; tok 3b 3a 1 20613a31203b20', H, ('corpus', 'tok'), 'corpus'))
+    out.append(Case('ts kvp 2 61 31 62 32 63 33 ; kvp 0 61 31 ; kvp 3 61 31 61 32 62 - ; kvp 0 ; kvp 2 61 31 62 32', H, ('corpus', 'kvp'), 'corpus'))
     return out
 
 
@@ -240,6 +291,58 @@ def rheader(rng, pool):
     return h
 
 
+def generate_entry_points(rng, big):
+    """Empty / GetAllEntries with a declining callback on the states of a sequence; the tokenizer and the fixed-capacity array
+    called directly"""
+    out = []
+    mul = 50 if big else 1
+    for _ in range(200 * mul):
+        pool = [bytes([rng.choice(b'abcd')]) + bytes(rng.choice(b'xy1') for _ in range(rng.randrange(0, 2))) for _ in range(rng.randrange(2, 6))]
+        ops = ['emp 0']
+        nstates = 1
+        if rng.random() < 0.3:
+            n = rng.choice([31, 32])
+            ops.append('from ' + hx(b','.join(b'k%d=v%d' % (i, i) for i in range(n)))); nstates += 1
+        for _k in range(rng.randrange(2, 14)):
+            r = rng.random()
+            i = rng.randrange(nstates) if rng.random() < 0.3 else nstates - 1
+            if r < 0.1:
+                ops.append('from ' + hx(rheader(rng, pool))); nstates += 1
+            elif r < 0.4:
+                ops.append(f'set {i} {hx(rkey(rng, pool))} {hx(rval(rng))}'); nstates += 1
+            elif r < 0.55:
+                ops.append(f'del {i} {hx(rkey(rng, pool))}'); nstates += 1
+            elif r < 0.75:
+                ops.append(f'emp {i}')
+            else:
+                ops.append(f'ents {i} {rng.choice([0, 1, 1, 2, 3, 5, 31, 32, 33, 40])}')
+        out.append(Case('ts ' + ' ; '.join(ops), H, ('sequence', 'emp-ents')))
+    pool = [b'a', b'b', b'c1', b't@s']
+    for _ in range(500 * mul):
+        h = rheader(rng, pool)
+        if rng.random() < 0.3:      # more empty / blank members and stray separators
+            parts = h.split(b',')
+            for _j in range(rng.randrange(1, 4)):
+                parts.insert(rng.randrange(len(parts) + 1), rng.choice([b'', b' ', b'\t ', b'x', b'=', b' = ']))
+            h = b','.join(parts)
+        msep, kvsep = b',', b'='
+        if rng.random() < 0.25:
+            msep, kvsep = rng.choice([(b';', b':'), (b'|', b'='), (b',', b':'), (b'\xff', b'\x00')])
+            h = h.replace(b',', b'\x01').replace(b'=', b'\x02').replace(b'\x01', msep).replace(b'\x02', kvsep)
+        ign = rng.choice('01')
+        out.append(Case(f'ts tok {msep.hex()} {kvsep.hex()} {ign} {hx(h)}', H, ('tokenizer', 'ignore-empty' if ign == '1' else 'report-empty')))
+    for _ in range(250 * mul):
+        cap = rng.choice([0, 1, 2, 3, 5, 32, 33])
+        n = max(0, cap + rng.choice([-2, -1, 0, 0, 1, 2, 5]))
+        kv = []
+        for _j in range(n):
+            k = rng.choice(pool) if rng.random() < 0.4 else bytes(rng.randrange(1, 256) for _ in range(rng.randrange(0, 6)))
+            v = bytes(rng.randrange(1, 256) for _ in range(rng.choice([0, 1, 3, 40])))
+            kv.append(f'{hx(k)} {hx(v)}')
+        out.append(Case(f'ts kvp {cap}' + ''.join(' ' + x for x in kv), H, ('kvprops', 'fits' if n <= cap else 'over-capacity')))
+    return out
+
+
 def generate(rng, tier):
     big = tier == 'thorough'
     out = []
@@ -292,6 +395,7 @@ def generate(rng, tier):
                 ops.append(f'hdr {i}')
         tag = 'near-limit' if ops and ops[0].startswith('from') else 'random'
         out.append(Case('ts ' + ' ; '.join(ops), H, ('sequence', tag)))
+    out += generate_entry_points(rng, big)
     # header round trips: hdr then from again
     for _ in range(60000 if big else 400):
         pool = [b'a', b'b', b'c1', b't@s']
